@@ -150,12 +150,34 @@ class Grammar:
         return True
 
     def max_len(self, cap=40):
-        """for finite languages: the longest word length (<= cap)"""
-        best = -1
-        sub = Grammar(self.useful_prods(), self.start)     # finite language => every useful variable is finite
-        for w in sub.words(cap):
-            best = max(best, len(w))
-        return best
+        """for finite languages: the exact length of the longest word (-1 for the empty language), by a
+        longest-derivation fixpoint over the useful productions (cycles of a finite language add length 0);
+        values above `cap` are reported as cap + 1"""
+        if self.is_empty():
+            return -1
+        prods = self.useful_prods()
+        best = {}
+        for _ in range(2 * len(self.variables) + 3):
+            changed = False
+            for h, b in prods:
+                tot = 0
+                ok = True
+                for x in b:
+                    if x[0] == "T":
+                        tot += 1
+                    elif x[1] in best:
+                        tot += best[x[1]]
+                    else:
+                        ok = False
+                        break
+                if ok:
+                    tot = min(tot, cap + 1)
+                    if tot > best.get(h, -1):
+                        best[h] = tot
+                        changed = True
+            if not changed:
+                break
+        return best.get(self.start, -1)
 
     # ------------------------------------------------------------ shape predicates
     def has_eps_prod(self):
